@@ -1,4 +1,5 @@
 import Cbor.Lemmas.Ser
+import Cbor.Props.C20
 namespace Lemmas.Ser
 open Model Spec Lemmas Gen
 
@@ -8,8 +9,11 @@ def sz (k : Nat) : UInt64 := if k < 2 ^ 64 then UInt64.ofNat k else 0
 theorem sz_lt (k : Nat) (h : k < 2 ^ 64) : sz k = UInt64.ofNat k := by simp [sz, h]
 theorem sz_ge (k : Nat) (h : ¬ k < 2 ^ 64) : sz k = 0 := by simp [sz, h]
 
-theorem ssadd_zero_l (b : UInt64) : _cbor_safe_signaling_add 0 b = 0 := by simp [_cbor_safe_signaling_add]
-theorem ssadd_zero_r (a : UInt64) : _cbor_safe_signaling_add a 0 = 0 := by simp [_cbor_safe_signaling_add]
+/-! The generated size helpers are used only through their specification lemmas (`Props.C20`), never unfolded here. -/
+theorem ssadd_zero_l (b : UInt64) : _cbor_safe_signaling_add 0 b = 0 := by
+  apply UInt64.toNat_inj.mp; rw [Props.C20.C20_sadd]; simp
+theorem ssadd_zero_r (a : UInt64) : _cbor_safe_signaling_add a 0 = 0 := by
+  apply UInt64.toNat_inj.mp; rw [Props.C20.C20_sadd]; simp
 
 theorem ssadd_sz (a b : Nat) (ha : 0 < a) (hb : 0 < b) :
     _cbor_safe_signaling_add (sz a) (sz b) = sz (a + b) := by
@@ -18,22 +22,14 @@ theorem ssadd_sz (a b : Nat) (ha : 0 < a) (hb : 0 < b) :
     · rw [sz_lt a h1, sz_lt b h2]
       have e1 := u64_of a h1
       have e2 := u64_of b h2
+      apply UInt64.toNat_inj.mp
+      rw [Props.C20.C20_sadd, e1, e2]
       have n1 : ¬ UInt64.ofNat a = 0 := by intro h; rw [h] at e1; simp at e1; omega
       have n2 : ¬ UInt64.ofNat b = 0 := by intro h; rw [h] at e2; simp at e2; omega
-      have b1 : (UInt64.ofNat a == 0) = false := by simp [n1]
-      have b2 : (UInt64.ofNat b == 0) = false := by simp [n2]
-      simp only [_cbor_safe_signaling_add, _cbor_safe_to_add, b1, b2, Bool.or_self, Bool.false_eq_true,
-        if_false, Bool.and_eq_true, decide_eq_true_eq, ge_iff_le, UInt64.le_iff_toNat_le, UInt64.toNat_add, e1, e2]
+      simp only [n1, n2, false_or]
       by_cases h3 : a + b < 2 ^ 64
-      · rw [sz_lt _ h3, Nat.mod_eq_of_lt h3]
-        split
-        · apply UInt64.toNat_inj.mp
-          rw [UInt64.toNat_add, e1, e2, u64_of _ h3, Nat.mod_eq_of_lt h3]
-        · omega
-      · rw [sz_ge _ h3]
-        split
-        · omega
-        · rfl
+      · rw [sz_lt _ h3, u64_of _ h3, if_neg (by omega)]
+      · rw [sz_ge _ h3, if_pos (by omega)]; rfl
     · rw [sz_ge b h2, ssadd_zero_r, sz_ge]; omega
   · rw [sz_ge a h1, ssadd_zero_l, sz_ge]; omega
 
@@ -49,24 +45,10 @@ theorem hsize_spec (mt v : Nat) (h : v < 2 ^ 64) :
     _cbor_encoded_header_size (UInt64.ofNat v) = sz (Spec.head mt v).length := by
   have e := u64_of v h
   rw [head_length]
-  unfold _cbor_encoded_header_size
-  simp only [decide_eq_true_eq, UInt64.le_iff_toNat_le, e]
-  have t1 : (23 : UInt64).toNat = 23 := rfl
-  have t2 : (255 : UInt64).toNat = 255 := rfl
-  have t3 : (65535 : UInt64).toNat = 65535 := rfl
-  have t4 : (4294967295 : UInt64).toNat = 4294967295 := rfl
-  rw [t1, t2, t3, t4]
-  by_cases c1 : v < 24
-  · rw [if_pos (show v ≤ 23 by omega), if_pos c1]; rfl
-  by_cases c2 : v < 256
-  · rw [if_neg (show ¬ v ≤ 23 by omega), if_pos (show v ≤ 255 by omega), if_neg c1, if_pos c2]; rfl
-  by_cases c3 : v < 65536
-  · rw [if_neg (show ¬ v ≤ 23 by omega), if_neg (show ¬ v ≤ 255 by omega), if_pos (show v ≤ 65535 by omega), if_neg c1, if_neg c2, if_pos c3]; rfl
-  by_cases c4 : v < 4294967296
-  · rw [if_neg (show ¬ v ≤ 23 by omega), if_neg (show ¬ v ≤ 255 by omega), if_neg (show ¬ v ≤ 65535 by omega),
-      if_pos (show v ≤ 4294967295 by omega), if_neg c1, if_neg c2, if_neg c3, if_pos c4]; rfl
-  · rw [if_neg (show ¬ v ≤ 23 by omega), if_neg (show ¬ v ≤ 255 by omega), if_neg (show ¬ v ≤ 65535 by omega),
-      if_neg (show ¬ v ≤ 4294967295 by omega), if_neg c1, if_neg c2, if_neg c3, if_neg c4]; rfl
+  apply UInt64.toNat_inj.mp
+  rw [Props.C20.C20_header_size, e]
+  repeat' split
+  all_goals (first | omega | rfl)
 
 mutual
 /-- lengths and counts the C representation stores in a `size_t` -/
